@@ -2,23 +2,21 @@ SPEC = dict(
     id="C13",
     level_text=(
         "Lean 4 theorems over ALL storage trees with distinct paths (association lists Path -> Bytes), ALL fault subsets "
-        "(read failures, write failures before any byte or after k staged bytes, manifest write/read failure; any files; "
-        "backup or restore phase), every restore target and - where the statement allows - ALL error policies: "
-        "C13_roundtrip (no faults: backup completes, records 0 skipped, restore into empty storage completes and the "
-        "restored storage maps p to b IFF the original holds b at p and p is a visible parquet or Iceberg-metadata file); "
-        "C13_restore_honest (full clause 2, for every policy in which restoreDataFiles does not `continue` silently) with "
-        "C13_restore_honest_iff (the full clause holds of a policy iff it does not continue silently); "
-        "C13_backup_marks/_current (clause 3: a completed backup lacking any eligible file has manifest.skipped_files > 0; side "
-        "conditions re-proved by `decide` over the regenerated policy), C13_backup_status, C13_backup_ratio. "
-        "FINDING: for the source as found the regenerated fact restoreFileErr = 0 (log+continue, return nil) and the full "
-        "restore clause is FALSE (C13_restore_honest_witness, replayed on the real Manager by the harness, key "
-        "restore-success-missing-files:restoreDataFiles); what is proved for the current policy is "
-        "C13_restore_honest_partial (carve-out: no restore-phase fault names a backed-up file) and C13_restore_counts "
-        "(processed = total => everything restored). C13_restore_honest_current selects full vs carved by the regenerated "
-        "fact, so the full theorem is the one in force after a repair. The model (policy = regenerated facts) is diffed "
-        "against the real backup.Manager over fault-injecting wrappers of the real LocalBackend: statuses, persisted manifest "
-        "counts, progress counters and the complete resulting trees (path, length, FNV-64 of content) on an edge grid and "
-        "random trees."
+        "(read failures, write failures before any byte or after k staged bytes, manifest write/read failure, SQLite / arc.toml "
+        "step failure; any files; backup or restore phase), every restore target, every option set (backup with/without SQLite "
+        "metadata and arc.toml; restore with RestoreMetadata/RestoreConfig on or off) and - where the statement allows - ALL "
+        "error policies and step programs: C13_roundtrip / C13_roundtrip_full (no faults: backup completes, 0 skipped, restore "
+        "into empty storage completes and maps p to b IFF the original holds b at p and p is a visible parquet or Iceberg-metadata "
+        "file); C13_restore_honest (clause 2 for the whole RestoreBackup: completed => every backed-up file restored byte-for-byte, "
+        "for every policy that does not silently continue a per-file error and whose step program is progOk, a decidable check over "
+        "all requested-step x step-outcome combinations) and C13_restore_honest_current (both side conditions re-proved by `decide` "
+        "over the regenerated per-file policy and the regenerated step program of RestoreBackup); C13_restore_data_honest_iff; "
+        "C13_backup_marks/_current/_full_current (clause 3: a completed backup lacking any eligible file has manifest.skipped_files "
+        "> 0), C13_backup_status, C13_backup_ratio, C13_restore_counts. Known-bad shapes are theorems: C13_restore_honest_witness "
+        "(per-file continue, the finding fixed in 79c3a87), C13_restore_masked_witness (a later step's success overwrites the data "
+        "error). The model (policy + step program = regenerated facts) is diffed against the real backup.Manager over fault-injecting "
+        "wrappers of the real LocalBackend and a real SQLite file: statuses, persisted manifest counts and flags, progress counters, "
+        "whether arc.db / arc.toml were restored, and the complete resulting trees (path, length, FNV-64) on an edge grid and random trees."
     ),
     technique="Lean 4 proofs (induction over the per-file copy loop, extensional tree equality) over an executable model of CreateBackup/RestoreBackup whose per-file error policy is regenerated from the source by a go/ast extractor; differential correspondence against the real backup.Manager over fault-injecting LocalBackend wrappers; independent property monitors",
     factgen=True,
@@ -30,7 +28,8 @@ SPEC = dict(
         "float64(skipped) > 0.10*float64(total) is modelled as skipped*den > num*total over the exact fraction read from the maxSkipRatio literal (equal for all file counts < 2^50; boundary k-of-n grid in the harness)",
         "fault injection wraps the real LocalBackend (errors returned before any byte, reads that die after k bytes, transfers that die after k staged bytes); the backup destination is swapped through a verif-tagged overlay hook (internal/backup/zz_verif_c13.go: VerifC13WrapBackupStorage)",
         "factgen's shape expectations (go/factgen/cmd/c13): which statement shapes mean continue / count+continue / return err",
-        "SQLite metadata, Iceberg catalog DB and arc.toml backup/restore (IncludeMetadata/IncludeConfig) are outside the property and not modelled; context cancellation and temp-file failures are not injected",
+        "SQLite metadata and arc.toml steps are modelled only as succeed/fail steps (has_metadata / has_config flags, restored yes/no); their content handling (WAL checkpoint, .before-restore copies) and the separate Iceberg catalog DB are not modelled; context cancellation and temp-file failures are not injected",
+        "factgen's reading of RestoreBackup's step program (go/factgen/cmd/c13): `if err := step(); err != nil {fail}` = fail-now, `err = step()` without an immediate unconditional failure = assign to the shared variable, top-level `if err != nil {fail}` = check",
         "trees have distinct paths (a file system); no path is both a file and a directory",
     ],
     assumptions=[
